@@ -98,3 +98,21 @@ theorem popMin_unique {h : List (Nat × Nat)} {m r} (e : popMin h = some (m, r))
   exact Prod.ext this.1 this.2
 
 end CV.Huff
+
+namespace CV.Huff
+
+/-- heap layout is irrelevant: two heaps with the same entries pop the same minimum and leave
+the same entries behind -/
+theorem popMin_layout {h h' : List (Nat × Nat)} (hp : h.Perm h') {m r m' r'}
+    (e : popMin h = some (m, r)) (e' : popMin h' = some (m', r')) : m = m' ∧ r.Perm r' := by
+  have hmem : m ∈ h' := hp.mem_iff.mp ((popMin_perm e).mem_iff.mpr List.mem_cons_self)
+  have hmin : ∀ y ∈ h', keyLe m y := by
+    intro y hy
+    rcases List.mem_cons.mp ((popMin_perm e).mem_iff.mp (hp.mem_iff.mpr hy)) with rfl | hyr
+    · unfold keyLe; omega
+    · exact popMin_min e y hyr
+  have hm := popMin_unique e' hmem hmin
+  subst hm
+  exact ⟨rfl, ((popMin_perm e).symm.trans (hp.trans (popMin_perm e'))).cons_inv⟩
+
+end CV.Huff
